@@ -315,6 +315,12 @@ fn mode_orders() {
     println!("map.deserialize_json#1 {}", join(a.keys()));
     println!("map.deserialize_json#2 {}", join(b.keys()));
 
+    // NOT a defect of the wrapper, but worth knowing: converting a std map (random hasher) re-inserts the
+    // entries in the std map's (random) iteration order, and hashbrown's layout depends on insertion order,
+    // so the *iteration order* of the result is not reproducible although its hasher is the fixed one.
+    let stdm: StdMap<u64, u64> = keys.iter().map(|k| (*k, *k)).collect();
+    println!("note.map.from_std {}", join(DMap::from(stdm).keys()));
+
     let s: DSet<u64> = keys.iter().copied().collect();
     println!("ref.set.from_iter {}", join(s.iter()));
     let json = serde_json::to_string(&s).unwrap();
